@@ -1,4 +1,4 @@
-from sched_common import SchedCheck, MODULES, HB, ONLY, parse_case, parse_obs, fmt_case
+from sched_common import SchedCheck, MODULES, HB, ONLY, parse_case, parse_obs, fmt_case, stale_flush
 
 
 class C08(SchedCheck):
@@ -22,7 +22,7 @@ class C08(SchedCheck):
                   "Single virtual process. rand() of module rnd is replaced by the case's numbers.")
     technique = ("Coq proof (permutation invariant over operation histories for 11 module models + drain termination) "
                  "+ differential run of the installed PaRSEC scheduler modules against the extracted model")
-    rule = ("per module and stream count (1,2,3,4,8): random histories of schedule / schedule_vp / select / get_next_task / "
+    rule = ("per module and stream count (quick: 1, 2|3, 4|8 rotating with the seed; thorough: 1,2,3,4,5,8,16): random histories of schedule / schedule_vp / select / get_next_task / "
             "drain with rings of 1..16 (occasionally up to 64) tasks, priorities in a tiny range, distances 0..5, "
             "foreign-thread schedules, ending with a drain; non-trivial = at least one schedule; distinct = case text")
     trusted = ("harness replicates the 6-line static inline __parsec_get_next_task; rand() interposed by the harness; "
@@ -38,15 +38,23 @@ class C08(SchedCheck):
         r = self.rng
         out = []
         quick = self.tier == "quick"
-        streams = self.STREAMS_QUICK if quick else self.STREAMS_THOROUGH
-        per = 8 if quick else 60
-        for mod in (ONLY or MODULES):
+        per = 10 if quick else 60
+        for mi, mod in enumerate(ONLY or MODULES):
+            # quick tier: one process per (module, stream count) costs about a second: three counts per module,
+            # rotating with the seed; all of them in the thorough tier and in the search after a failure
+            streams = ((1, (2, 3)[(self.seed + mi) % 2], (4, 8)[(self.seed + mi // 2) % 2]) if quick
+                       else self.STREAMS_THOROUGH)
             for n in streams:
                 for k in range(per):
                     nops = r.pick([4, 8, 12, 20, 30])
                     big = (mod in HB) and k % 4 == 3
                     out.append(self.gen_history(r, mod, n, nops, vp_ops=(k % 2 == 0), maxring=16,
                                                 dist_hi=r.pick([3, 3, 5]), big=big))
+        # flush_private of a task retained from a ring of three (finding flush-stale-ring); last in their groups.
+        # (ap ip rnd spq hang and ltq crashes on the same input: not run every time, see search_cases)
+        for mod in ("gd", "lfq", "ll", "pbq"):
+            if not ONLY or mod in ONLY:
+                out.append("%s 2 | V 1 0 0:5:0:0:7 1:3:0:0:3 2:4:0:0:5 | F 1 | D" % mod)
         return out
 
     def search_cases(self):
@@ -56,6 +64,8 @@ class C08(SchedCheck):
             for n in (1, 2, 4, 8):
                 for _ in range(6):
                     out.append(self.gen_history(r, mod, n, 40, vp_ops=True, maxring=32, dist_hi=5, big=True))
+        for mod in (ONLY or MODULES):
+            out.append("%s 2 | V 1 0 0:5:0:0:7 1:3:0:0:3 2:4:0:0:5 | F 1 | D" % mod)
         return out
 
     # ---- the property, on the implementation's observation alone ------------
@@ -84,6 +94,8 @@ class C08(SchedCheck):
             if o[0] in ("S", "V"):
                 for t in o[3]:
                     handed.add(t["id"])
+                continue
+            if o[0] == "F":
                 continue
             if k >= len(ev):
                 return "observation too short"
@@ -118,6 +130,8 @@ class C08(SchedCheck):
     def signature(self, case, obs):
         mod, n, ops = parse_case(case)
         why = self.oracle(case, obs) or ""
+        if stale_flush(ops):
+            return "flush-stale-ring"
         kind = ("crash" if "crash" in why else "dup" if "second time" in why else "unknown" if "not pending" in why
                 else "lost" if "never returned" in why else "other")
         return "%s-%s" % (mod, kind)
